@@ -84,7 +84,7 @@ func runChunkingMode() {
 			propFail("C07 framing-parse case=%s err=%v", name, ps.err)
 			continue
 		}
-		checkSplits(r, name, root, o.String(), res.stream, res.truths, ps.frames[0].end)
+		checkSplits(r, name, root, o.String(), res.stream, res.truths, ps.frames[0].end, ps.zstd)
 		// every variant except dataerr splits the header region into several reads
 		note("nontrivial %x", fnv(name, hx(res.stream)))
 		if i%20 == 0 {
@@ -92,6 +92,7 @@ func runChunkingMode() {
 		}
 	}
 	bigTailCases(r)
+	overrunCases(r)
 }
 
 // stringLeafPaths lists the getter paths from the record to string fields that are reached through
@@ -183,7 +184,7 @@ func bigTailCases(r *rng.R) {
 					continue
 				}
 				stats["big-tail-streams"]++
-				checkSplits(r, name, root, o.String()+" big-tail "+strings.Join(path, "."), stream, truths, ps.frames[0].end)
+				checkSplits(r, name, root, o.String()+" big-tail "+strings.Join(path, "."), stream, truths, ps.frames[0].end, ps.zstd)
 				note("nontrivial %x", fnv(name))
 			}
 		}
@@ -255,9 +256,16 @@ func tillTrace(root *rootSpec, src io.Reader, maxCalls int) (trace string, pan s
 
 // checkSplits reads the stream through sources that split it differently and compares every
 // outcome with the whole-buffer read.
-func checkSplits(r *rng.R, name string, root *rootSpec, opts string, stream []byte, truths []string, hdrRegion int) {
+//
+// Every run over an uncompressed stream is also replayed on the Lean model of the read path
+// (chunkio.go: the Read calls the real reader makes on the source are logged and predicted).
+func checkSplits(r *rng.R, name string, root *rootSpec, opts string, stream []byte, truths []string, hdrRegion int, zstd bool) {
 	maxReads := len(truths) + 2
-	whole := summarize(readAll(root, bytes.NewReader(stream), maxReads))
+	tie := newRioTie(root, stream, stream, zstd, maxReads)
+	wrec := &recSrc{src: bytes.NewReader(stream)}
+	wro := readAll(root, wrec, maxReads)
+	tie.emit("whole", wrec, wro)
+	whole := summarize(wro)
 	if whole.n != len(truths) || whole.class != "eof" || whole.sig != fnv(truths...) {
 		propFail("C07 baseline-mismatch case=%s whole-buffer read gave %d records then %s (want %d, eof), dumps equal to the written records: %v", name, whole.n, whole.class, len(truths), whole.sig == fnv(truths...))
 		return
@@ -285,6 +293,8 @@ func checkSplits(r *rng.R, name string, root *rootSpec, opts string, stream []by
 		{"full+eof", &eagerEOFReader{b: stream}, false},
 		{"64k+eof", &eagerEOFReader{b: stream, max: 64 << 10}, false},
 		{"5000+eof", &eagerEOFReader{b: stream, max: 5000}, false},
+		{"zero-lazy", &zeroReader{b: stream, r: rng.New(r.U64()), max: 50, maxRun: 3}, false},
+		{"zero-eager", &zeroReader{b: stream, r: rng.New(r.U64()), max: 70000, maxRun: 2, eager: true}, false},
 	}
 	// frame-restricted reads: the same call sequence must see the same frame boundaries
 	wantTill, _ := tillTrace(root, bytes.NewReader(stream), 3*maxReads+8)
@@ -309,7 +319,10 @@ func checkSplits(r *rng.R, name string, root *rootSpec, opts string, stream []by
 	}
 	reported := map[string]bool{}
 	for _, v := range vs {
-		got := summarize(readAll(root, v.src, maxReads))
+		rec := &recSrc{src: v.src}
+		ro := readAll(root, rec, maxReads)
+		tie.emit(v.name, rec, ro)
+		got := summarize(ro)
 		stats["variant-"+v.name]++
 		if got.pan == "" && got.n == whole.n && got.sig == whole.sig && got.class == whole.class && !got.capped {
 			stats["variant-same-"+v.name]++
@@ -337,4 +350,9 @@ func checkSplits(r *rng.R, name string, root *rootSpec, opts string, stream []by
 		propFail("C07 %s case=%s root=%s opts=%s variant=%s: whole-buffer read: %d records then %s; this source: %d records then %s (constructor failed: %v, panic: %q); stream=%s",
 			sig, name, root.name, opts, v.name, whole.n, whole.class, got.n, got.class, got.ctor, got.pan, hx(trunc(stream, 400)))
 	}
+	checkFailing(name, root, opts, stream, truths, tie)
+	if len(stream) <= 16<<10 {
+		checkStall(r, name, root, opts, stream, truths, tie)
+	}
+	checkCutSplits(r, name, root, opts, stream, zstd, maxReads)
 }
